@@ -98,9 +98,16 @@ def check_case(case, ctx):
 
     def run(desc):
         agg = aggs.make(desc, Jt.dtype)
-        for k, f in enumerate(warm):  # earlier calls of the same instance (their results are not judged here)
-            call(agg, torch.roll(Jt, k + 1, dims=1) * f)
-        out, err, w = call(agg, Jt)
+        # earlier calls of the same instance (their results are not judged here) - through ONE pre-allocated buffer refilled in
+        # place, which the judged call sees too (same tensor object, new content)
+        buf = Jt.clone()
+        wrng = np.random.default_rng(len(warm) * 7919 + m * 131 + n)
+        for k, f in enumerate(warm):
+            # (unrelated content: a rolled / rescaled copy of J has the same Gramian up to a factor, hence the same balance transformation)
+            buf.copy_(torch.tensor(wrng.standard_normal((m, n)) * f, dtype=torch.float64).to(Jt.dtype))
+            call(agg, buf)
+        buf.copy_(Jt)
+        out, err, w = call(agg, buf if warm else Jt)
         if err is not None:
             ctx.violation("aggregator_raised", case, {"error": repr(err)[:300], "agg": desc})
             return None
